@@ -2,6 +2,7 @@
 * Copyright (C) 2018-2025 by Pavel Kisliak                                     *
 * This file is part of BitSerializer library, licensed under the MIT license.  *
 *******************************************************************************/
+#include <algorithm>
 #include <cstring>
 #include "msgpack_readers.h"
 #include "bitserializer/conversion_detail/memory_utils.h"
@@ -1258,7 +1259,9 @@ namespace BitSerializer::MsgPack::Detail
 			}
 
 			mBuffer.clear();
-			mBuffer.reserve(remainingSize);
+			// The declared size is untrusted: reserve at most one chunk in advance, the buffer grows as the data really arrives
+			// (a five-byte input announcing 4 GB must end in a parsing error, not in an allocation of 4 GB)
+			mBuffer.reserve(std::min<size_t>(remainingSize, BitSerializer::Detail::CBinaryStreamReader::chunk_size));
 			while (remainingSize != 0)
 			{
 				if (const std::string_view chunk = mBinaryStreamReader.ReadByChunks(remainingSize); !chunk.empty())
